@@ -823,7 +823,16 @@ impl Memory {
     }
 
     pub fn verif_pop_frame(&mut self) -> bool {
-        self.pop_frame().is_some()
+        // the popped frame is leaked on purpose: its drop glue (a loop over
+        // the allocations) is of no interest to the harnesses and costly
+        // for the model checker
+        match self.pop_frame() {
+            Some(frame) => {
+                std::mem::forget(frame);
+                true
+            }
+            None => false,
+        }
     }
 
     pub fn verif_copy(&mut self, to: usize, from: usize, size: usize) {
